@@ -14,6 +14,8 @@ class Engine(Interp):
     def __init__(self, ctx):
         super().__init__(ctx)
         self.default_path_steps = 3000
+        import itertools
+        self._tick = itertools.count()
 
     # ======================================================================== roles / keys
     def role_of(self, fr, operand):
@@ -218,6 +220,9 @@ class Engine(Interp):
         tlo, thi = self.ctx.int_range(d.ty)
         outs = []
         vals = []
+        tagging = (self.ctx.partition_fns is not None and lo == 0 and hi == 1 and len(st.part) < self.ctx.max_parts_branch
+                   and self.ctx.partition_fns(fr.inst) and self.prog.ty(d.ty).tag == "Bool")
+        base_part = st.part
         for val, tgt in branches:
             # switch values are the raw bits (u128) of the discriminant type
             if tlo < 0 and val > thi:
@@ -229,6 +234,8 @@ class Engine(Interp):
                 s2 = st.copy()
                 try:
                     self.set_itv(s2, d.vid, val, val)
+                    if tagging:
+                        s2.part = base_part + ((bi, "br", val),)
                     outs.append((tgt, s2))
                 except Diverge:
                     pass
@@ -246,6 +253,8 @@ class Engine(Interp):
             return outs
         try:
             self.set_itv(s2, d.vid, l2, h2)
+            if tagging:
+                s2.part = base_part + ((bi, "br", "else"),)
             outs.append((other, s2))
         except Diverge:
             pass
@@ -616,6 +625,7 @@ class Engine(Interp):
                     loop_heads.add(s)
         depth = self.loop_depth(body)
         in_states = {}
+        head_plen = {}
         visits = {}
         work = []
         queued = set()
@@ -628,6 +638,11 @@ class Engine(Interp):
                 s2.part = s2.part[:part0]
                 ret_state = s2 if ret_state is None else join_states(ctx, ret_state, s2, ("ret", fr.id))
                 return
+            if succ in loop_heads and s2.part:
+                inner = body._loop_bodies.get(succ, ())
+                np_ = tuple(t for t in s2.part if not (len(t) == 3 and t[1] in ("br", "ovf") and t[0] in inner) and not (len(t) == 3 and isinstance(t[1], int) and t[0] in inner))
+                if np_ != s2.part:
+                    s2.part = np_
             sk = (succ, s2.part)
             old = in_states.get(sk)
             if old is None or (npred[succ] <= 1 and succ not in loop_heads and not force_join):
@@ -656,7 +671,7 @@ class Engine(Interp):
                 if ctx.log and ctx.log(fr):
                     self.debug_state(fr, succ, v, widen, new, s2)
             if changed and sk not in queued:
-                heapq.heappush(work, ((-depth.get(succ, 0), rpo_idx[succ]), len(work) + iters, sk))
+                heapq.heappush(work, ((-depth.get(succ, 0), rpo_idx[succ]), next(self._tick), sk))
                 queued.add(sk)
 
         ctx.quiet += 1
@@ -710,6 +725,11 @@ class Engine(Interp):
                         s2.part = s2.part[:part0]
                         ret_edges[(pfx, full)] = s2
                         return
+                    if succ in loop_heads and s2.part:
+                        inner = body._loop_bodies.get(succ, ())
+                        np_ = tuple(t for t in s2.part if not (len(t) == 3 and t[1] in ("br", "ovf") and t[0] in inner) and not (len(t) == 3 and isinstance(t[1], int) and t[0] in inner))
+                        if np_ != s2.part:
+                            s2.part = np_
                     sk = (succ, s2.part)
                     per = edges_in.setdefault(sk, {})
                     old = per.get(pfx)
@@ -720,7 +740,7 @@ class Engine(Interp):
                         return          # heads are processed once per pass, with their stored state
                     done.discard(sk)
                     if sk not in [x[2] for x in pq]:
-                        heapq.heappush(pq, (rpo_idx[succ], len(done) + len(pq), sk))
+                        heapq.heappush(pq, (rpo_idx[succ], next(self._tick), sk))
 
                 def merged_in(sk):
                     per = edges_in[sk]
